@@ -19,7 +19,7 @@ Obs == [tc |-> tc', h |-> h', alpha2 |-> alpha2', esc |-> esc',
         cov |-> CovNext,
         lossless |-> cfg.alg \in Sketched /\ Cardinality({i \in 1..D : CovNext[i] > 0}) <= K - 1]
 GInit == Init /\ hist = <<>>
-GNext == Next /\ hist' = Append(hist, [in |-> gs'[n + 1], term |-> w'[n + 1], exp |-> Obs])
+GNext == Step /\ hist' = Append(hist, [in |-> gs'[n + 1], term |-> w'[n + 1], exp |-> Obs])
 GSpec == GInit /\ [][GNext]_gvars
 Done == n = T \/ n = cfg.tmax
 \* for tlc -simulate: a finished behaviour stutters, so that every sampled trace ends at the depth bound
